@@ -31,6 +31,10 @@ class Proto2(Protocol):  # structurally identical to Proto: mutual subclasses, d
     def foo(self): ...
 
 
+SPEC = {}  # id(type object) -> (constructor name, members as given to the constructor)
+_KEEP = []  # keeps the objects alive so that ids stay unique
+
+
 def is_named_b(cls):
     return getattr(cls, "__name__", "").startswith("B")
 
@@ -40,7 +44,42 @@ def positive(x: int):
 
 
 def N(t):
-    return normalize_type(t, None)
+    import types as _types
+
+    r = normalize_type(t, None)
+    if isinstance(t, _types.UnionType):
+        SPEC[id(r)] = ("Union", tuple(N(m) for m in t.__args__))
+        _KEEP.append(r)
+    return r
+
+
+
+def U_(*ms):
+    t = Union[ms]
+    SPEC[id(t)] = ("Union", ms)
+    _KEEP.append(t)
+    return t
+
+
+def I_(*ms):
+    t = Intersection[ms]
+    SPEC[id(t)] = ("Intersection", ms)
+    _KEEP.append(t)
+    return t
+
+
+def X_(b):
+    t = Exactly[b]
+    SPEC[id(t)] = ("Exactly", (b,))
+    _KEEP.append(t)
+    return t
+
+
+def S_(b):
+    t = StrictSubclass[b]
+    SPEC[id(t)] = ("StrictSubclass", (b,))
+    _KEEP.append(t)
+    return t
 
 
 def terms(depth=1):
@@ -48,24 +87,24 @@ def terms(depth=1):
     K["Class"] = [object, A, B, C, D, E, int, bool, str, Sized, Proto, Proto2, WithFoo, tuple, type]
     K["Alias"] = [list[A], list[B], list[int], list[bool], dict[str, A], dict[str, B], type[A], type[B], type[object], list[list[A]], list[list[B]], typing.List[A], set[A], typing.Tuple[()], tuple[()]]
     K["Union"] = [N(A | E), N(B | C), N(B | E), N(C | B), N(int | str), N(bool | str), N(E | A)]
-    K["Inter"] = [Intersection[A, E], Intersection[B, C], Intersection[B, E], Intersection[C, B], Intersection[A, Proto], Intersection[E, A]]
-    K["Exactly"] = [Exactly[A], Exactly[B], Exactly[int], Exactly[E]]
-    K["Strict"] = [StrictSubclass[A], StrictSubclass[B], StrictSubclass[int], StrictSubclass[object]]
+    K["Inter"] = [I_(A, E), I_(B, C), I_(B, E), I_(C, B), I_(A, Proto), I_(E, A)]
+    K["Exactly"] = [X_(A), X_(B), X_(int), X_(E), X_(A)]  # two separately built X_(A)
+    K["Strict"] = [S_(A), S_(B), S_(int), S_(object)]
     K["HasMethod"] = [HasMethod["foo"], HasMethod["__len__"], HasMethod["__init__"]]
     K["ClassCheck"] = [class_check(is_named_b)]
     K["Equals"] = [N(Literal[1]), N(Literal[1, 2]), N(Literal[2, 1]), N(Literal["a"]), N(Literal[True]), Equals[0]]
     K["FuncDep"] = [Dependent[int, positive], StartsWith["a"], StartsWith["ab"], Regexp["^a"], Dependent[A, class_check(is_named_b)] if False else Dependent[bool, positive]]
     K["Product"] = [N(tuple[A, B]), N(tuple[B, C]), N(tuple[B, B]), N(tuple[A]), N(tuple[()]), N(tuple[int, str])]
     if depth >= 2:
-        K["Union"] += [Union[Intersection[A, E], int], Union[Exactly[A], E], Union[N(Literal[1]), str], Union[list[A], E]]
-        K["Inter"] += [Intersection[N(A | E), C], Intersection[Exactly[A], E]]
-        K["Alias"] += [list[N(A | E)], list[N(B | E)], list[Intersection[A, E]], type[N(A | E)], list[Exactly[A]]]
-        K["Exactly"] += [Exactly[N(A | E)], Exactly[N(B | E)], Exactly[Intersection[A, E]], Exactly[Exactly[A]], Exactly[N(Literal[1])], Exactly[list[A]]]
+        K["Union"] += [U_(I_(A, E), int), U_(X_(A), E), U_(N(Literal[1]), str), U_(list[A], E)]
+        K["Inter"] += [I_(N(A | E), C), I_(X_(A), E)]
+        K["Alias"] += [list[N(A | E)], list[N(B | E)], list[I_(A, E)], type[N(A | E)], list[X_(A)]]
+        K["Exactly"] += [X_(N(A | E)), X_(N(B | E)), X_(I_(A, E)), X_(Exactly[A]), X_(N(Literal[1])), X_(list[A])]
         K["Product"] += [N(tuple[A | E, B]), N(tuple[Literal[1], str])]
-        K["Inter"] += [Intersection[int, N(Literal[1])], Intersection[N(Literal[1]), int], Intersection[str, StartsWith["a"]], Intersection[StartsWith["a"], str], Intersection[Exactly[A], A], Intersection[N(A | E), N(E | A)]]
-        K["Union"] += [Union[int, N(Literal[1])], Union[StartsWith["a"], int]]
-        K["Equals"] += [Dependent[int | str, N(Literal[1])], Dependent[Intersection[A, E], N(Literal[1])]]
-        K["FuncDep"] += [Dependent[int | str, positive], Dependent[Intersection[A, E], positive], Dependent[Exactly[int], positive]]
+        K["Inter"] += [I_(int, N(Literal[1])), I_(N(Literal[1]), int), I_(str, StartsWith["a"]), I_(StartsWith["a"], str), I_(X_(A), A), I_(N(A | E), N(E | A))]
+        K["Union"] += [U_(int, N(Literal[1])), U_(StartsWith["a"], int)]
+        K["Equals"] += [Dependent[int | str, N(Literal[1])], Dependent[I_(A, E), N(Literal[1])]]
+        K["FuncDep"] += [Dependent[int | str, positive], Dependent[I_(A, E), positive], Dependent[X_(int), positive]]
     return K
 
 
